@@ -14,7 +14,8 @@ EXTRA_MODULES = ['DiffxVerif.Properties.C01Run', 'DiffxVerif.Properties.C01Faith
 TIE_MODULES = ['DiffxVerif.Tie.Sections']
 NEEDS = ['sections', 'options', 'text']
 ASSUMPTIONS = [
-    'CPython codecs and json are environment; theorems take the codec round-trip / homomorphism laws as hypotheses; laws are tested per codec by C15',
+    'CPython codecs and json are environment; the general theorems take the codec round-trip / homomorphism laws and the three JSON laws as hypotheses; for eleven codecs (25 spellings) and for the Lean model of json.dumps / json.loads the laws are proved (Properties/C01Closed.lean) and the Lean functions are compared with CPython on every run (codecs: C15; json: this check); other codecs: laws tested per codec by C15',
+    'json model: float printing / parsing is not modelled (floats are lexemes, converted by CPython on both sides of the comparison); recursion limit, loads(bytes) and non-str keys are outside the model; the JSON laws hold on the domain JsonText.Dom (= Json.Representable FloatLex): a str with a lone high surrogate directly followed by a lone low one does not round-trip in CPython either',
     'expected records come from harness/specdoc.py (independent of pydiffx)',
 ]
 
@@ -126,6 +127,7 @@ def explore(ctx, escalate=False, hint=None):
     r2 = base.explore_generic(ctx, leanjson.LeanJson(), 40000 if ctx.run.tier == 'thorough' else (8000 if escalate else 2500),
                               'Lean json model (Model/JsonText.lean) vs CPython: dumps(indent=4, sort_keys) of random objects; loads of '
                               'CPython renderings under many layouts, an edge-text catalogue and random mutations', chunk=4000)
+    res['rule'] += ' + ' + r2['rule']
     res['evaluations'] += r2['evaluations']
     res['disagreements'] += r2['disagreements']
     res['distribution'].update(r2['distribution'])
